@@ -259,7 +259,7 @@ Lemma pend_step X s d l P' :
   pinv X s' d /\
   (forall p, valid_loc st p -> lseg p = lseg l -> lmc l <= lmc p -> Cov p \/ Sent s' p).
 Proof.
-  unfold push. intros E Hr Hu Hpc Hpv Hvl Hbl Hp s' Hk2.
+  intros E Hr Hu Hpc Hpv Hvl Hbl Hp s' Hk2. unfold push in E.
   destruct (q_push (f_pending s) l false Hr) as (q2 & E2 & Hr1 & Hin1 & Hoth & Hhi & Hex & Hu1). rewrite E in E2. inv E2.
   pose proof Hp as [K1 K2 K3 K5].
   (* an uncovered entry of the segment of [l] after the push, or full coverage *)
@@ -283,13 +283,13 @@ Proof.
         { destruct Hb as [->|(b0 & Hb0 & ->)]; auto. destruct (quniq_same _ _ _ _ _ Hu Hb0 Hy ltac:(congruence)) as [_ ->]. reflexivity. }
         subst b'. destruct (N.le_gt_cases (lmc l) (lmc p)).
         -- right. left. exists l. split; [right; exact Hq'|split; [congruence|auto]].
-        -- left. eapply below_cov_lower; eauto. congruence.
+        -- left. apply (below_cov_lower l p Hvl Hbl Hvp); [congruence|lia].
   - intros p Hvp Hs Hm. destruct Hex as (e' & b' & Hq' & Hs' & Hm').
     destruct (Huncov e' b' Hq' Hs') as [->|Hct].
     + destruct (Hin1 e' false Hq') as [Ho|[-> _]].
       * destruct (N.le_gt_cases (lmc e') (lmc p)).
         -- right. exists e'. split; [right; exact Hq'|split; [congruence|auto]].
-        -- left. destruct (K1 e' (or_intror Ho)) as [Hve Hbe]. eapply below_cov_lower; eauto. congruence.
+        -- left. destruct (K1 e' (or_intror Ho)) as [Hve Hbe]. apply (below_cov_lower e' p Hve Hbe Hvp); [congruence|lia].
       * right. exists l. split; [right; exact Hq'|auto].
     + left. eapply cov_down; [exact Hct|]. rewrite <- (tip_same st p l Hs). now apply tip_anc.
 Qed.
@@ -339,7 +339,7 @@ Lemma discharge head s d :
 Proof.
   intros Hp Hd. eapply pinv_step; [exact Hp| | |apply (pk3 _ _ _ Hp)|apply (pk5 _ _ _ Hp)].
   - intros y Hy. now left.
-  - intros p Hvp [Hc|[Hs|[Hh|[Hi0|Hx]]]]; unfold alt; auto 6.
+  - intros p Hvp [Hc|[Hs|[Hh|[Hi0|Hx]]]]; [unfold alt; auto 6..|apply Hd; auto].
 Qed.
 
 Lemma body_parents s head covered c d :
@@ -354,12 +354,12 @@ Proof.
                 rep_ok (f_pending s1) /\ quniq (f_pending s1) /\ (forall e b, qin (f_pending s1) e b -> valid_loc st e) /\
                 (forall y, qin (f_pending s1) y true -> Cov (tip y))).
   { destruct (opt_N_eqb (f_prev s) (lmc head)).
-    - inv E1. exists d. split; [apply dle_refl|]. repeat split; auto.
+    - inv E1. exists d. split; [apply dle_refl|]. split; [exact Hpi|]. split; [reflexivity|]. split; [auto|]. split; [auto|]. split; auto.
     - apply rbind_ok in E1 as ([p' ls] & Ed & E1). apply (lift_q_inv dbg) in Ed.
       apply rbind_ok in E1 as (c' & Ec & E1). inv E1.
       destruct (flush_step (Popped head) s d (lmc head) p' ls c' (Some (lmc head)) Hpr Hcl Hpi Ed Ec) as (d1 & L1 & P1).
       destruct (q_drain_above (f_pending s) (lmc head) Hpr) as (p2 & ls2 & E2 & Hr2 & Hin2 & _ & Hu2). rewrite Ed in E2. inv E2.
-      exists d1. split; auto. split; [exact P1|]. cbn. repeat split; auto.
+      exists d1. split; auto. split; [exact P1|]. cbn. split; [reflexivity|]. split; [auto|]. split; [auto|]. split.
       + intros e b Hq. apply Hin2 in Hq as [Hq _]. eauto.
       + intros y Hq. apply Hin2 in Hq as [Hq _]. eauto. }
   destruct Hs1 as (d1 & L1 & P1 & Eh & Hpr1 & Hpu1 & Hpv1 & Hpc1).
@@ -378,7 +378,7 @@ Proof.
     apply rbind_ok in Hb as (p' & Ep & Hb). apply (lift_q_inv dbg) in Ep.
     apply rbind_ok in Hb as (h' & Eh' & Hb).
     pose proof (cover_step (Popped head) s1 d1 head sg p' Ep Hpr1 Hpu1 Hpv1 Hvh Hfs Hcov P1) as P2.
-    destruct (heads_step (Popped head) _ d1 _ true h' (f_cursor s1) Eh' Hhr1 P2) as [P3 _].
+    destruct (heads_step (Popped head) (with_pc s1 p' (f_collected s1) (f_prev s1)) d1 _ true h' (f_cursor s1) Eh' Hhr1 P2) as [P3 _].
     assert (P4 : pinv NoX (with_h (with_pc s1 p' (f_collected s1) (f_prev s1)) h' (f_cursor s1)) d1).
     { apply (discharge head); auto. intros p Hvp [Hs Hm]. left. eapply cov_down; [exact Hcov|]. apply same_seg_anc; auto. }
     destruct (early_stop h'); inv Hb; exact P4.
@@ -387,7 +387,7 @@ Proof.
     apply rbind_ok in Hb as (s2 & E2 & Hb).
     assert (Hfin : pinv NoX s2 d1).
     { destruct best as [hloc|].
-      - apply (scan_have_in st haves) in Eb as (Hinh & Hsegh & Hsh).
+      - apply scan_have_in in Eb as (Hinh & Hsegh & Hsh).
         assert (Hvl : valid_loc st hloc) by (eapply Forall_forall in Hhaves; eauto).
         assert (Hrl : in_range sg (lmc hloc)) by (apply Hpin; auto).
         assert (Hch : Cov hloc) by (exists hloc; split; [auto|apply la_refl]).
@@ -403,7 +403,7 @@ Proof.
           assert (Hbn : below_cov (L (lmc hloc + 1) (lseg head))).
           { intros sg1 Hf1. cbn in Hf1. rewrite Hfs in Hf1. inv Hf1. right. cbn.
             replace (lmc hloc + 1 - 1) with (lmc hloc) by lia. rewrite <- Hsegh, loc_eta. exact Hch. }
-          destruct (pend_step (Popped head) _ d1 _ p' Ep Hpr1 Hpu1 Hpc1 Hpv1 Hvn Hbn PA) as [PB Hsent].
+          destruct (pend_step (Popped head) (with_h s1 h' (advance_cursor haves (f_cursor s1) (seg_longest sg) (length haves))) d1 _ p' Ep Hpr1 Hpu1 Hpc1 Hpv1 Hvn Hbn PA) as [PB Hsent].
           { intros sg1 Hf1 Hfirst. cbn in Hf1, Hfirst. rewrite Hfs in Hf1. inv Hf1. unfold in_range in *. lia. }
           apply (discharge head); [exact PB|]. intros p Hvp [Hs Hm].
           destruct (N.le_gt_cases (lmc p) (lmc hloc)); [left; apply Hlowc; auto|].
@@ -414,7 +414,7 @@ Proof.
         destruct (heads_step (Popped head) s1 d1 _ false h' (advance_cursor haves (f_cursor s1) (seg_longest sg) (length haves)) Eh' Hhr1 P1) as [PA Hinh].
         assert (Hbn : below_cov (seg_first_loc sg)).
         { intros sg1 Hf1. cbn in Hf1. rewrite Hidx, Hfs in Hf1. inv Hf1. now left. }
-        destruct (pend_step (Popped head) _ d1 _ p' Ep Hpr1 Hpu1 Hpc1 Hpv1 (valid_first _ _ W Hin) Hbn PA) as [PB Hsent].
+        destruct (pend_step (Popped head) (with_h s1 h' (advance_cursor haves (f_cursor s1) (seg_longest sg) (length haves))) d1 _ p' Ep Hpr1 Hpu1 Hpc1 Hpv1 (valid_first _ _ W Hin) Hbn PA) as [PB Hsent].
         { intros sg1 Hf1 _ p Hp. cbn in Hf1. rewrite Hidx, Hfs in Hf1. inv Hf1.
           right. right. left. destruct (Hinh p Hp) as (e & b & Hq & Hs & Hm). exists e, b. auto. }
         apply (discharge head); [exact PB|]. intros p Hvp [Hs Hm].
@@ -492,3 +492,58 @@ Proof.
   - exfalso. destruct (hi_dle d d' p L1 Hi0) as (t & Et & Lt). eapply Hhi; eauto.
 Qed.
 End Parents.
+
+(** * The theorem about [find_needed_segments] *)
+Definition parents_first_stmt : Prop :=
+  forall (dbg : bool) (st : store) (cmds : list addr) (ts : list loc),
+  wf_store st -> find_needed_segments dbg st cmds = ROk ts ->
+  forall x, In x ts ->
+    valid_loc st x /\
+    (* the entry starts at the first command of its segment, or right above a command the peer is known to hold *)
+    (forall sg, find_seg (st_segs st) (lseg x) = Some sg ->
+       lmc x = g_first sg \/ covered_by st cmds (L (lmc x - 1) (lseg x))) /\
+    (* the parents of a segment sent from its first command are known to the peer, or are sent by an entry
+       that sorts strictly earlier (entries are sent whole, in order) *)
+    (forall sg, find_seg (st_segs st) (lseg x) = Some sg -> lmc x = g_first sg ->
+       forall p, In p (prior_list (g_prior sg)) ->
+         covered_by st cmds p \/ exists y, In y ts /\ lseg y = lseg p /\ lmc y <= lmc p /\ lmc y < lmc x).
+
+Lemma parents_first_proof : parents_first_stmt.
+Proof.
+  intros dbg st cmds ts W E x Hx. unfold find_needed_segments in E.
+  destruct (Nat.ltb _ _); [destruct dbg; discriminate|].
+  set (haves := sort_desc_mc (have_locations st cmds)) in *.
+  set (hi := match haves with h :: _ => lmc h | [] => 0 end) in *.
+  destruct (N.ltb_spec (u64_max - SEGMENT_BUFFER_MAX) hi); [destruct dbg; discriminate|].
+  apply rbind_ok in E as (heads & Eh & E). apply rbind_ok in E as (s & Es & E).
+  destruct (drain_all (f_pending s)) as [q' rest] eqn:Ed. apply rbind_ok in E as (c & Ec & E). inv E.
+  pose proof (haves_valid st W cmds) as Hhv. fold haves in Hhv.
+  destruct qnew_ok as (Hr0 & Hu0 & Hn0).
+  destruct (seed_cover dbg st W cmds (hi + SEGMENT_BUFFER_MAX)) with (hs := st_heads st) (q := qnew) (q' := heads)
+    as (R1 & R2 & R3 & _); auto.
+  { unfold highest. fold haves. fold hi. rewrite SEGMENT_BUFFER_MAX_pin. lia. }
+  { intros e b Hq. exfalso. eapply Hn0; eauto. }
+  { intros i' h' Hi'. eapply wf_heads; eauto. }
+  set (s0 := {| f_heads := heads; f_pending := qnew; f_collected := []; f_prev := None; f_cursor := 0 |}) in *.
+  assert (Hinv0 : cinv st haves s0).
+  { constructor; cbn; auto; try lia;
+      try (intros e b Hq; now destruct (R3 e b Hq));
+      try (intros e Hq; destruct (R3 e true Hq) as [_ Hf]; discriminate);
+      try (intros; exfalso; eapply Hn0; eauto). }
+  assert (Hp0 : pinv st haves NoX s0 None).
+  { constructor; cbn.
+    - intros y [[]|Hq]. exfalso. eapply Hn0; eauto.
+    - intros y sg [[]|Hq]. exfalso. eapply Hn0; eauto.
+    - intros x0 t [].
+    - congruence. }
+  destruct (loop_parents dbg st W haves Hhv _ _ _ None Es Hinv0 Hp0) as (d' & Hp & Hinv & Hcovd).
+  assert (Ec' : push_bounded_all (f_collected s) (snd (drain_all (f_pending s))) = ROk c) by (rewrite Ed; exact Ec).
+  apply (proj1 (sort_locs_in _ _)) in Hx.
+  destruct (final_parents dbg st W haves s d' c Hinv Hp Hcovd Ec' x Hx) as (Hv & Hb & Hk).
+  split; auto. split.
+  - intros sg Hf. destruct (Hb sg Hf) as [?|Hc]; auto. right. now apply (cov_covered st cmds).
+  - intros sg Hf Hfirst p Hpp. destruct (Hk sg Hf Hfirst p Hpp) as [Hc|(y & Hy & Hs & Hm)].
+    + left. now apply (cov_covered st cmds).
+    + right. exists y. split; [now apply sort_locs_in|]. split; auto. split; auto.
+      pose proof Hf as Hf'. apply find_seg_some in Hf' as [Hin _]. destruct (wf_prior _ W sg p Hin Hpp). lia.
+Qed.
